@@ -113,6 +113,12 @@ class ChanFamily:
             for f in ('type', 'state', 'tag', 'key', 'uses'):
                 if rng.random() < 0.55:
                     c[f] = genpat(rng, f)
+            if len(chans) > 1 and rng.random() < 0.35:
+                # a near copy of an earlier channel: only one field differs (matchers must not be shared between channels)
+                src = rng.choice(chans[1:])
+                c = dict(src, id=f'c{i}')
+                f = rng.choice(['uses', 'uses', 'key', 'type', 'state', 'tag'])
+                c[f] = genpat(rng, f)
             chans.append(c)
         # answers: complete / skip / abort some irqs from the quiescent client, interleaved with channel ops
         ops = [{'op': 'start', 'mid': 'm1', 'vars': {'pid': 'p1'}}, {'op': 'quiesce'}]
@@ -133,6 +139,10 @@ class ChanFamily:
                 ops.append({'op': 'chan_open', 'chan': c})
             else:
                 ops.append({'op': 'act', 'target': {'pid': 'p1', 'kind': 'act', 'state': 'interrupted', 'occ': 0}, 'action': rng.choice(['next', 'next', 'next', 'skip', 'abort', 'error']), 'options': {'ecode': 'e1'}})
+            if ops[-1]['op'] == 'act' and rng.random() < 0.35:
+                continue        # no quiescence: the next op (possibly a close / re-registration) comes back to back with the action
+            ops.append({'op': 'quiesce'})
+        if ops[-1]['op'] != 'quiesce':
             ops.append({'op': 'quiesce'})
         ops += [{'op': 'run'}, {'op': 'snapshot', 'level': 'live'}]
         rt = rng.choice([{'flavor': 'current'}, {'flavor': 'current', 'chaos': {'max_yields': 3, 'seed': rng.randrange(1, 1 << 40)}}, {'flavor': 'multi', 'workers': 2, 'chaos': {'max_yields': 2, 'seed': rng.randrange(1, 1 << 40)}}])
@@ -163,6 +173,22 @@ class ChanFamily:
                         l[1] = o['seq']
                         l.append(self._call_seq(h, o))
                 life[cid].append([o['seq'], None, op['chan'].get('gen', 0), op['chan']])
+        # last quiescent point before each op: messages generated after it and before a channel op are in flight when
+        # the op runs, whether they reach the old or the new registration is not determined
+        quiet = {}
+        lastq = 0
+        for o in h.ops:
+            quiet[o['seq']] = lastq
+            if sc['ops'][o['i']]['op'] in ('quiesce', 'run'):
+                lastq = o['seq']
+        # nothing is delivered to a registration after its close / replacement has returned
+        for cid, spans in life.items():
+            for sp in spans:
+                if sp[1] is None:
+                    continue
+                late = [d for d in h.delivers if d['chan'] == cid and d['gen'] == sp[2] and d['seq'] > sp[1]]
+                if late:
+                    out.append(V('C18', 'delivered-after-close', 'dispatch-after-return', f"channel {cid}#{sp[2]} received {self._m(late[0])} after its close / replacement had returned", scenario=sid))
         main = [d for d in h.delivers if d['chan'] == 'main']
         got = collections.defaultdict(collections.Counter)
         for d in h.delivers:
@@ -184,6 +210,11 @@ class ChanFamily:
                     obs['c18.decisions'] += 1
                     # channel ops are issued at quiescent points only, so a message belongs to a registration
                     # iff it was generated strictly between the registration and its closing
+                    if (to is not None and quiet.get(to, 0) < es < to) or (frm and quiet.get(frm, 0) < es < frm):
+                        # in flight while the registration was closed / opened: only "filter rejects" can be judged
+                        if not want and n:
+                            out.append(V('C18', 'delivered-but-filter-rejects', self._which(flt, m), f"channel {cid}#{gen} {self._f(flt)} received {self._m(m)}", scenario=sid))
+                        continue
                     inside = es > frm and (to is None or es < to)
                     if not inside:
                         if n:
